@@ -148,6 +148,7 @@ pub fn op_to_json(op: &Op) -> Value {
         Op::ReadAll { keys } => json!({"op": "read_all", "keys": keys}),
         Op::Await { call } => json!({"op": "await", "call": call}),
         Op::AwaitAll => json!({"op": "await_all"}),
+        Op::PollOnce { call } => json!({"op": "poll_once", "call": call}),
         Op::Advance { ms } => json!({"op": "advance", "ms": ms}),
         Op::Tick => json!({"op": "tick"}),
         Op::TickWait => json!({"op": "tick_wait"}),
@@ -173,6 +174,7 @@ pub fn op_from_json(v: &Value) -> Result<Op, String> {
         "read_all" => Op::ReadAll { keys: v["keys"].as_array().map(|a| a.iter().filter_map(|x| x.as_u64()).collect()).unwrap_or_default() },
         "await" => Op::Await { call: v["call"].as_u64().unwrap_or(0) as usize },
         "await_all" => Op::AwaitAll,
+        "poll_once" => Op::PollOnce { call: v["call"].as_u64().unwrap_or(0) as usize },
         "advance" => Op::Advance { ms: v["ms"].as_u64().unwrap_or(0) },
         "tick" => Op::Tick,
         "tick_wait" => Op::TickWait,
